@@ -6,6 +6,7 @@ import (
 	"context"
 	"encoding/json"
 	"fmt"
+	"github.com/jilio/ebu/stores/sqlite"
 	"path/filepath"
 	"strconv"
 
@@ -17,7 +18,7 @@ import (
 // FOp is one store call of the in-process workload, optionally with a fault
 // placed inside it at the driver level.
 type FOp struct {
-	K   string `json:"k"`             // append save
+	K   string `json:"k"`             // append save peek (read the stream from the start and stop after Back+1 events: a reader that only wanted a look)
 	Sub string `json:"sub,omitempty"` // save: subscription id
 	// Fault: "" none; "exec-fail" the statement fails before running;
 	// "reply-lost" the statement runs and its reply is replaced by an error;
@@ -37,6 +38,10 @@ type FOp struct {
 
 type FCase struct {
 	Cycles [][]FOp `json:"cycles"` // clean close + reopen between cycles
+	// Batch > 0: the store is opened with WithStreamBatchSize(Batch).  Only
+	// the "peek" operation reads streams; how they are fetched is nobody
+	// else's business.
+	Batch int `json:"batch,omitempty"`
 }
 
 type fEntry struct {
@@ -152,7 +157,11 @@ func RunInProc(c *FCase) *vkit.Outcome {
 	}
 
 	for ci, ops := range c.Cycles {
-		st, plan, err := storekit.OpenSQLiteFaulty(path)
+		var sopts []sqlite.Option
+		if c.Batch > 0 {
+			sopts = append(sopts, sqlite.WithStreamBatchSize(c.Batch))
+		}
+		st, plan, err := storekit.OpenSQLiteFaulty(path, sopts...)
 		if err != nil {
 			o.Failf("", "cycle %d: open: %v", ci, err)
 			return o
@@ -180,6 +189,18 @@ func RunInProc(c *FCase) *vkit.Outcome {
 				plan.Arm(true)
 			}
 			switch op.K {
+			case "peek":
+				n := 0
+				for _, serr := range st.ReadStream(ctx, eventbus.OffsetOldest) {
+					if serr != nil {
+						break
+					}
+					if n++; n > op.Back {
+						break
+					}
+				}
+				plan.Arm(false)
+				o.Class("stream_read_abandoned_part_way")
 			case "append":
 				nextID++
 				off, err := st.Append(ctx, &eventbus.Event{Type: "ev", Data: []byte(fmt.Sprintf(`{"id":%d}`, nextID))})
